@@ -1358,11 +1358,14 @@ func (c *Context) quantize(d, v *Decimal, exp int32) Condition {
 	d.Set(v)
 	var res Condition
 	if diff < 0 {
-		if diff < MinExponent {
-			return SystemUnderflow | Underflow
+		// A zero takes any exponent as it is: there are no digits to append.
+		if !d.IsZero() {
+			if diff < MinExponent {
+				return SystemUnderflow | Underflow
+			}
+			var tmpE BigInt
+			d.Coeff.Mul(&d.Coeff, tableExp10(-int64(diff), &tmpE))
 		}
-		var tmpE BigInt
-		d.Coeff.Mul(&d.Coeff, tableExp10(-int64(diff), &tmpE))
 	} else if diff > 0 {
 		p := int32(d.NumDigits()) - diff
 		if p < 0 {
